@@ -41,6 +41,11 @@ func c14PathSets() []getReq {
 		{Label: "presence", Paths: []Path{P("sys", "banner")}},
 		{Label: "below-and-above-presence", Paths: []Path{P("sys", "banner", "text"), P("sys")}},
 		{Label: "presence-and-below", Paths: []Path{P("sys", "banner"), P("sys", "banner", "text")}},
+		// several paths whose textual forms are prefixes of one another without being ancestors
+		{Label: "prefix-related-keys", Paths: []Path{P("if", e1), P("if", e10, "descr")}},
+		{Label: "prefix-related-keys-reversed", Paths: []Path{P("if", e10, "descr"), P("if", e1)}},
+		{Label: "prefix-related-names", Paths: []Path{P("sys", "mtu"), P("sys", "mtu-ext")}},
+		{Label: "prefix-related-lists", Paths: []Path{P("if"), P("ifx", K{"name", "e1"}, "descr")}},
 		{Label: "unknown-path", Paths: []Path{P("nosuch")}, WantErr: true},
 		{Label: "unknown-child", Paths: []Path{P("sys", "nosuch")}, WantErr: true},
 		{Label: "known+unknown", Paths: []Path{P("sys"), P("nosuch")}, WantErr: true},
@@ -211,8 +216,11 @@ func (C14Checker) Check(s *Step) []*Violation {
 						for _, n := range r.GetNotification() {
 							for _, u := range n.GetUpdate() {
 								c := CanonPath(u.GetPath())
-								if _, dup := got[c]; dup {
-									probs = append(probs, "duplicate leaf "+c)
+								// the same leaf delivered twice with the same value is tolerated (the property speaks of which
+								// leaves are returned, not how often: requests with several paths whose textual forms are
+								// prefixes of one another deliver a leaf once per path that reads it); two values are not
+								if prev, dup := got[c]; dup && prev != CanonTV(u.GetValue()) {
+									probs = append(probs, "leaf delivered twice with different values "+c)
 								}
 								got[c] = CanonTV(u.GetValue())
 							}
